@@ -331,10 +331,17 @@ def load_prop(pid):
 
 
 def known_findings():
+    out = []
     p = os.path.join(ROOT, "known_findings.json")
-    if not os.path.exists(p):
-        return []
-    return json.load(open(p))["findings"]
+    if os.path.exists(p):
+        out += json.load(open(p))["findings"]
+    fd = os.path.join(ROOT, "findings")
+    if os.path.isdir(fd):
+        for f in sorted(os.listdir(fd)):
+            if f.endswith(".json"):
+                j = json.load(open(os.path.join(fd, f)))
+                out += j["findings"] if isinstance(j, dict) else j
+    return out
 
 
 def write_replay(pid, n, payload):
@@ -346,7 +353,7 @@ def write_replay(pid, n, payload):
     return p
 
 
-def exec_tus(tus, seed, scale, inc_hash, jobs=16):
+def exec_tus(tus, seed, scale, inc_hash, jobs=int(os.environ.get('VERIF_JOBS', '16'))):
     """compile + run + drive every TU; returns (merged driver result, per-tu info, broken list)."""
     results, info, broken = [], [], []
     t0 = time.time()
